@@ -653,6 +653,12 @@ def _json_text(W, module, value):
     import json
     return json.dumps(value)
 
+def _shift(v):
+    """a user-supplied 'type' (any callable is accepted by the readers): distinguishable and value-preserving"""
+    return v + "!" if isinstance(v, str) else v + 1000
+
+_RESTRICT_TYPES = {"float": float, "shift": _shift}
+
 @op
 def read_restrict(inp, W):
     """reader with a column/key restriction vs. read-everything-then-select"""
@@ -662,6 +668,8 @@ def read_restrict(inp, W):
     records = inp["records"]          # list of dicts (JSON) or list of rows (CSV)
     cols = inp["cols"]
     from . import stubs
+    tmap = {k: _RESTRICT_TYPES[t] for k, t in inp.get("types") or []}
+    tkw = {} if not tmap else {("dtypes" if kind.startswith("DataFrame") else "types"): tmap}
     if kind in ("DataFrame.from_json", "ListOfDicts.from_json"):
         cls = di.DataFrame if kind.startswith("DataFrame") else di.ListOfDicts
         mod = __import__("dataiter.data_frame" if cls is di.DataFrame else "dataiter.list_of_dicts", fromlist=["x"])
@@ -669,11 +677,11 @@ def read_restrict(inp, W):
         if W.sym:
             with stubs.patched(mod, "json", stubs.JsonStub(mod.json, records)):
                 full = cls.from_json("<text>")
-                part = cls.from_json("<text>", **{kw: cols})
+                part = cls.from_json("<text>", **{kw: cols}, **tkw)
         else:
             text = json.dumps(records)
             full = cls.from_json(text)
-            part = cls.from_json(text, **{kw: cols})
+            part = cls.from_json(text, **{kw: cols}, **tkw)
         return {"full": full, "part": part}
     if kind == "ListOfDicts.read_csv":
         header = inp["header"]
@@ -687,7 +695,7 @@ def read_restrict(inp, W):
                     return iter([list(r) for r in rows])
             with stubs.patched(mod, "csv", CsvStub), stubs.patched(mod.util, "xopen", lambda *a, **k: stubs.StubFile()):
                 full = di.ListOfDicts.read_csv("x.csv", header=header)
-                part = di.ListOfDicts.read_csv("x.csv", header=header, keys=cols)
+                part = di.ListOfDicts.read_csv("x.csv", header=header, keys=cols, **tkw)
         else:
             d = tempfile.mkdtemp(prefix="vf_csv_")
             try:
@@ -696,7 +704,7 @@ def read_restrict(inp, W):
                 with open(p, "w", newline="") as f:
                     csv.writer(f, dialect="unix", quoting=csv.QUOTE_MINIMAL).writerows(rows)
                 full = di.ListOfDicts.read_csv(p, header=header)
-                part = di.ListOfDicts.read_csv(p, header=header, keys=cols)
+                part = di.ListOfDicts.read_csv(p, header=header, keys=cols, **tkw)
             finally:
                 import shutil; shutil.rmtree(d, ignore_errors=True)
         return {"full": full, "part": part}
